@@ -29,6 +29,7 @@ Ltac zb :=
   repeat match goal with
   | H : (_ && _) = true |- _ => apply andb_prop in H; destruct H
   | H : (_ || _) = false |- _ => apply orb_false_elim in H; destruct H
+  | H : (_ || _) = true |- _ => apply orb_prop in H; destruct H
   | H : negb _ = true |- _ => apply negb_true_iff in H
   | H : negb _ = false |- _ => apply negb_false_iff in H
   | H : (_ <=? _) = true |- _ => apply Z.leb_le in H
@@ -331,7 +332,7 @@ Proof.
   unfold sbound, pbound. intros [? ?] [? ?]. unfold ellipse_contains_point_ok.
   pose proof (mul_bound_nn (sw s) (sw s) 2048 2048). pose proof (mul_bound_nn (sh s) (sh s) 2048 2048).
   pose proof (mul_bound (px q) (px q) 8191 8191). pose proof (mul_bound (py q) (py q) 8191 8191).
-  assert (0 <= px q * px q) by nia. assert (0 <= py q * py q) by nia.
+  pose proof (Z.square_nonneg (px q)). pose proof (Z.square_nonneg (py q)).
   pose proof (mul_bound_nn (sh s * sh s) (px q * px q) (2048 * 2048) (8191 * 8191)).
   pose proof (mul_bound_nn (sw s * sw s) (py q * py q) (2048 * 2048) (8191 * 8191)).
   cbv zeta. sites; rng.
@@ -621,3 +622,329 @@ Proof.
 Qed.
 Lemma thick_points_next_total len : 1 <= len <= 4294967295 -> thick_points_next_ok len = true.
 Proof. intros. unfold thick_points_next_ok. rng. Qed.
+
+(* =========================================================================================== *)
+(* LinearEquation, IntersectionParams, miter (on the edge lines of a display-scale thick segment) *)
+(* =========================================================================================== *)
+Lemma le_normal_bound l : lbound 1280 l -> pbound 2560 (le_normal l).
+Proof.
+  intros Hl. destruct (line_delta_total 1280 l ltac:(lia) Hl) as [_ [? ?]].
+  unfold le_normal, rotate_90, pbound. cbn [px py]. lia.
+Qed.
+Lemma le_distance_bound l : lbound 1280 l -> - 6553600 <= le_distance l <= 6553600.
+Proof.
+  intros Hl. pose proof (le_normal_bound l Hl) as [? ?]. destruct Hl as [[? ?] _].
+  unfold le_distance, dot_product.
+  pose proof (mul_bound (px (l_start l)) (px (le_normal l)) 1280 2560).
+  pose proof (mul_bound (py (l_start l)) (py (le_normal l)) 1280 2560). lia.
+Qed.
+Lemma from_line_total l : edge_line l -> from_line_ok l = true.
+Proof.
+  intros He. pose proof (edge_lbound l He) as Hl. unfold from_line_ok.
+  destruct (line_delta_total 1280 l ltac:(lia) Hl) as [-> Hd].
+  rewrite (rotate_90_total 2560) by (assumption || lia).
+  rewrite (dot_product_total 1280 2560) by (try lia; try apply Hl; apply le_normal_bound; assumption).
+  reflexivity.
+Qed.
+Lemma le_point_distance_total l p : edge_line l -> edge_point p -> le_point_distance_ok l p = true.
+Proof.
+  intros He Hp. pose proof (edge_lbound l He) as Hl. unfold le_point_distance_ok.
+  assert (Hp' : pbound 1280 p) by (revert Hp; unf_ds; unfold pbound; tauto).
+  rewrite (dot_product_total 1280 2560) by (try lia; try assumption; apply le_normal_bound; assumption).
+  pose proof (le_distance_bound l Hl). pose proof (le_normal_bound l Hl) as [? ?]. destruct Hp' as [? ?].
+  unfold dot_product.
+  pose proof (mul_bound (px p) (px (le_normal l)) 1280 2560).
+  pose proof (mul_bound (py p) (py (le_normal l)) 1280 2560). cbn [andb]. rng.
+Qed.
+Lemma ip_denominator_bound l1 l2 : lbound 1280 l1 -> lbound 1280 l2 -> - 13107200 <= ip_denominator l1 l2 <= 13107200.
+Proof.
+  intros H1 H2. pose proof (le_normal_bound l1 H1) as [? ?]. pose proof (le_normal_bound l2 H2) as [? ?].
+  unfold ip_denominator, determinant.
+  pose proof (mul_bound (px (le_normal l1)) (py (le_normal l2)) 2560 2560).
+  pose proof (mul_bound (py (le_normal l1)) (px (le_normal l2)) 2560 2560). lia.
+Qed.
+Lemma from_lines_total l1 l2 : edge_line l1 -> edge_line l2 -> from_lines_ok l1 l2 = true.
+Proof.
+  intros H1 H2. unfold from_lines_ok. rewrite (from_line_total l1 H1), (from_line_total l2 H2).
+  rewrite (determinant_total 2560 2560) by (try lia; apply le_normal_bound, edge_lbound; assumption). reflexivity.
+Qed.
+Lemma nearly_colinear_total l1 l2 : edge_line l1 -> edge_line l2 -> nearly_colinear_ok l1 l2 = true.
+Proof.
+  intros H1 H2. pose proof (edge_lbound l1 H1) as B1. pose proof (edge_lbound l2 H2) as B2.
+  unfold nearly_colinear_ok.
+  destruct (line_delta_total 1280 l1 ltac:(lia) B1) as [-> D1]. destruct (line_delta_total 1280 l2 ltac:(lia) B2) as [-> D2].
+  rewrite (dot_product_total 2560 2560) by (assumption || lia).
+  pose proof (ip_denominator_bound l1 l2 B1 B2).
+  pose proof (mul_bound (ip_denominator l1 l2) (ip_denominator l1 l2) 13107200 13107200).
+  destruct D1 as [? ?], D2 as [? ?]. unfold dot_product.
+  pose proof (mul_bound (px (line_delta l1)) (px (line_delta l2)) 2560 2560).
+  pose proof (mul_bound (py (line_delta l1)) (py (line_delta l2)) 2560 2560).
+  cbn [andb]. sites; rng.
+Qed.
+Lemma div_bound n d N : 0 < d -> - N <= n <= N -> - N <= n / d <= N.
+Proof.
+  intros Hd Hn. split.
+  - apply Z.div_le_lower_bound; [assumption | nia].
+  - apply Z.div_le_upper_bound; [assumption | nia].
+Qed.
+Lemma round_div_total den num : den <> 0 -> - 13107200 <= den <= 13107200 ->
+  - 70000000000 <= num <= 70000000000 -> round_div_ok den num = true.
+Proof.
+  intros Hz Hd Hn. unfold round_div_ok.
+  destruct (den <? 0) eqn:E; zb.
+  - pose proof (div_bound (- num + Z.quot (- den) 2) (- den) 70100000000 ltac:(lia) ltac:(lia)).
+    sites; rng.
+  - pose proof (div_bound (num + Z.quot den 2) den 70100000000 ltac:(lia) ltac:(lia)).
+    sites; rng.
+Qed.
+Lemma ip_intersection_total l1 l2 : edge_line l1 -> edge_line l2 -> ip_intersection_ok l1 l2 = true.
+Proof.
+  intros H1 H2. pose proof (edge_lbound l1 H1) as B1. pose proof (edge_lbound l2 H2) as B2.
+  pose proof (ip_denominator_bound l1 l2 B1 B2). pose proof (le_distance_bound l1 B1). pose proof (le_distance_bound l2 B2).
+  pose proof (le_normal_bound l1 B1) as [? ?]. pose proof (le_normal_bound l2 B2) as [? ?].
+  unfold ip_intersection_ok. cbv zeta. destruct (ip_denominator l1 l2 =? 0) eqn:E; [reflexivity|]. zb.
+  pose proof (mul_bound (le_distance l1) (py (le_normal l2)) 6553600 2560).
+  pose proof (mul_bound (le_distance l2) (py (le_normal l1)) 6553600 2560).
+  pose proof (mul_bound (px (le_normal l1)) (le_distance l2) 2560 6553600).
+  pose proof (mul_bound (px (le_normal l2)) (le_distance l1) 2560 6553600).
+  rewrite !round_div_total by (unfold ip_x_numerator, ip_y_numerator; (assumption || lia)).
+  unfold det64_ok. rewrite !andb_true_r. sites; rng.
+Qed.
+(* the miter point is bounded by hypothesis here (OPEN: derive |intersection| <= 2^30 from the edge lines and the
+   nearly_colinear test); the stroke width may be anything up to 2^30 *)
+Lemma miter_total inter mid width : pbound 1073741824 inter -> ds_point mid -> 0 <= width <= 1073741824 ->
+  miter_ok inter mid width = true.
+Proof.
+  unfold pbound. unf_ds. intros [? ?] [? ?] ?. unfold miter_ok, point_sub_ok, length_squared, psub. cbn [px py].
+  pose proof (mul_bound (px inter - px mid) (px inter - px mid) 1073742848 1073742848).
+  pose proof (mul_bound (py inter - py mid) (py inter - py mid) 1073742848 1073742848).
+  pose proof (mul_bound_nn (width * 2) (width * 2) 2147483648 2147483648).
+  pose proof (Z.square_nonneg (px inter - px mid)). pose proof (Z.square_nonneg (py inter - py mid)).
+  sites; rng.
+Qed.
+
+(* =========================================================================================== *)
+(* Triangle                                                                                      *)
+(* =========================================================================================== *)
+Ltac mb a b := let H := fresh "M" in pose proof (mul_bound a b 2048 2048 ltac:(lia) ltac:(lia)) as H.
+Lemma area_doubled_total p1 p2 p3 : ds_point p1 -> ds_point p2 -> ds_point p3 -> area_doubled_ok p1 p2 p3 = true.
+Proof.
+  unf_ds. intros [? ?] [? ?] [? ?]. unfold area_doubled_ok, area_doubled.
+  mb (- py p2) (px p3). mb (py p1) (px p3 - px p2). mb (px p1) (py p2 - py p3). mb (px p2) (py p3).
+  sites; rng.
+Qed.
+Lemma tri_bary_total a0 a1 b0 b1 c d e f x y :
+  ds_coord a0 -> ds_coord a1 -> ds_coord b0 -> ds_coord b1 -> ds_coord c -> ds_coord d -> ds_coord e -> ds_coord f ->
+  ds_coord x -> ds_coord y -> tri_bary_ok a0 a1 b0 b1 c d e f x y = true.
+Proof.
+  unf_ds. intros. unfold tri_bary_ok.
+  mb a0 b0. mb a1 b1. mb (c - d) x. mb (e - f) y. sites; rng.
+Qed.
+Lemma tri_st_bound p1 p2 p3 p : ds_point p1 -> ds_point p2 -> ds_point p3 -> ds_point p ->
+  - 16777216 <= tri_s p1 p2 p3 p <= 16777216 /\ - 16777216 <= tri_t p1 p2 p3 p <= 16777216.
+Proof.
+  unf_ds. intros [? ?] [? ?] [? ?] [? ?]. unfold tri_s, tri_t.
+  mb (py p1) (px p3). mb (px p1) (py p3). mb (py p3 - py p1) (px p). mb (px p1 - px p3) (py p).
+  mb (px p1) (py p2). mb (py p1) (px p2). mb (py p1 - py p2) (px p). mb (px p2 - px p1) (py p). lia.
+Qed.
+Lemma tri_contains_total p1 p2 p3 p : ds_point p1 -> ds_point p2 -> ds_point p3 -> ds_point p ->
+  tri_contains_ok p1 p2 p3 p = true.
+Proof.
+  intros H1 H2 H3 Hp. pose proof (tri_st_bound p1 p2 p3 p H1 H2 H3 Hp) as [? ?].
+  unfold tri_contains_ok. rewrite (area_doubled_total p1 p2 p3 H1 H2 H3).
+  revert H1 H2 H3 Hp. unfold ds_point. intros [? ?] [? ?] [? ?] [? ?].
+  rewrite !tri_bary_total by assumption. cbn [andb]. sites; rng.
+Qed.
+Lemma sort_two_yx_ds a b : ds_point a -> ds_point b -> ds_point (fst (sort_two_yx a b)) /\ ds_point (snd (sort_two_yx a b)).
+Proof. intros. unfold sort_two_yx. destruct (_ || _); cbn [fst snd]; tauto. Qed.
+Lemma sorted_yx_ds p1 p2 p3 : ds_point p1 -> ds_point p2 -> ds_point p3 ->
+  let '(y1, y2, y3) := sorted_yx p1 p2 p3 in ds_point y1 /\ ds_point y2 /\ ds_point y3.
+Proof.
+  intros H1 H2 H3. unfold sorted_yx.
+  pose proof (sort_two_yx_ds p1 p2 H1 H2) as [A B]. destruct (sort_two_yx p1 p2) as [a b]. cbn [fst snd] in *.
+  pose proof (sort_two_yx_ds p3 a H3 A) as [C D]. destruct (sort_two_yx p3 a) as [c d]. cbn [fst snd] in *.
+  pose proof (sort_two_yx_ds d b D B) as [E F]. destruct (sort_two_yx d b) as [e f]. cbn [fst snd] in *. tauto.
+Qed.
+Lemma line_points_new_total l : ds_line l -> line_points_new_ok l = true.
+Proof.
+  intros Hl. unfold line_points_new_ok.
+  destruct (major_length_total 1024 l ltac:(lia) (ds_lbound l Hl)) as [-> _].
+  destruct (bparams_new_total 1024 l ltac:(lia) (ds_lbound l Hl)) as [-> _]. reflexivity.
+Qed.
+Lemma tri_bbox_ds p1 p2 p3 : ds_point p1 -> ds_point p2 -> ds_point p3 ->
+  tri_bbox_ok p1 p2 p3 = true /\ ds_point (tl (tri_bbox p1 p2 p3)) /\ 1 <= sw (sz (tri_bbox p1 p2 p3)) <= 2049 /\ 1 <= sh (sz (tri_bbox p1 p2 p3)) <= 2049.
+Proof.
+  unf_ds. intros [? ?] [? ?] [? ?].
+  unfold tri_bbox_ok, tri_bbox, with_corners_ok, from_bounding_box_ok, with_corners, size_from_bounding_box. cbn [px py tl sz sw sh].
+  split; [ sites; rng | lia ].
+Qed.
+Lemma triangle_contains_total p1 p2 p3 p : ds_point p1 -> ds_point p2 -> ds_point p3 -> ds_point p ->
+  triangle_contains_ok p1 p2 p3 p = true.
+Proof.
+  intros H1 H2 H3 Hp. unfold triangle_contains_ok.
+  destruct (tri_bbox_ds p1 p2 p3 H1 H2 H3) as [-> [[? ?] [? ?]]].
+  assert (contains_ok (tri_bbox p1 p2 p3) p = true) as ->.
+  { unfold contains_ok, bottom_right_ok, point_add_size_ok, point_sub_ok, size_as_i32_ok, padd_size, i32_max.
+    revert H. unf_ds. intros. cbn [px py]. sites; rng. }
+  cbn [andb]. destruct (negb _); [reflexivity|].
+  rewrite (tri_contains_total p1 p2 p3 p H1 H2 H3 Hp). cbn [andb].
+  destruct (tri_bary p1 p2 p3 p) as [[|]|]; try reflexivity.
+  pose proof (sorted_yx_ds p1 p2 p3 H1 H2 H3) as Hs. destruct (sorted_yx p1 p2 p3) as [[y1 y2] y3].
+  destruct Hs as [? [? ?]].
+  rewrite !line_points_new_total by (unfold ds_line; cbn [l_start l_end]; tauto). reflexivity.
+Qed.
+
+(* =========================================================================================== *)
+(* Text layout arithmetic                                                                        *)
+(* =========================================================================================== *)
+Lemma line_height_total percent v base : 0 <= base <= 1024 -> 0 <= v <= 1024 -> line_height_ok percent v base = true.
+Proof. intros. unfold line_height_ok. pose proof (mul_bound_nn base v 1024 1024). sites; rng. Qed.
+Lemma line_height_abs_bound (percent : bool) v base : 0 <= base <= 1024 -> 0 <= v <= (if percent then 400 else 1024) ->
+  0 <= line_height_abs percent v base <= 4096.
+Proof.
+  intros. unfold line_height_abs. destruct percent; [ | lia ].
+  pose proof (mul_bound_nn base v 1024 400). lia.
+Qed.
+Lemma text_line_total pos al np lh : pbound 1073741823 pos -> 0 <= px np <= 1073741823 -> py np = 0 -> 0 <= lh <= 4096 ->
+  text_line_ok pos al np lh = true.
+Proof.
+  unfold pbound. intros [? ?] ? ? ?. unfold text_line_ok, point_sub_ok, point_div_ok, psub, pdiv. cbn [px py].
+  destruct al; sites; rng.
+Qed.
+Lemma text_lines_total al lh : 0 <= lh <= 4096 -> forall widths pos,
+  Forall (fun w => 0 <= w <= 1073741823) widths ->
+  - 1073741823 <= px pos <= 1073741823 -> - 1073741823 <= py pos -> py pos + lh * Z.of_nat (length widths) <= 1073741823 ->
+  text_lines_ok pos al widths lh = true.
+Proof.
+  intros Hlh. induction widths as [|w rest IH]; intros pos Hw Hx Hy Hn; cbn [text_lines_ok]; [reflexivity|].
+  inversion Hw; subst. cbn [length] in Hn. rewrite Nat2Z.inj_succ in Hn.
+  rewrite text_line_total; cbn [px py]; try (unfold pbound); try lia.
+  cbn [andb]. apply IH; cbn [px py]; try assumption; nia.
+Qed.
+
+(* =========================================================================================== *)
+(* ImageRaw, ContiguousPixels, Cropped                                                           *)
+(* =========================================================================================== *)
+Definition ds_bpp (bpp : Z) : Prop := bpp = 1 \/ bpp = 2 \/ bpp = 4 \/ bpp = 8 \/ bpp = 16 \/ bpp = 24 \/ bpp = 32.
+Lemma bytes_per_row_total um w bpp : 4294967295 <= um -> ds_ext w -> ds_bpp bpp -> bytes_per_row_ok um w bpp = true.
+Proof. unf_ds. unfold ds_bpp, bytes_per_row_ok. intros. sites; rng. Qed.
+Lemma image_new_total um w h bpp : 4294967295 <= um -> ds_ext w -> ds_ext h -> ds_bpp bpp -> image_new_ok um w h bpp = true.
+Proof.
+  intros Hu Hw Hh Hb. unfold image_new_ok. rewrite (bytes_per_row_total um w bpp Hu Hw Hb). cbn [andb].
+  revert Hw Hh Hb. unf_ds. unfold ds_bpp, bytes_per_row. intros.
+  assert (0 <= (w * bpp + 7) / 8 <= 4096) by lia.
+  pose proof (mul_bound_nn ((w * bpp + 7) / 8) h 4096 1024). rng.
+Qed.
+Lemma data_width_bound w bpp : ds_ext w -> ds_bpp bpp -> w <= data_width w bpp <= w + 7.
+Proof.
+  unf_ds. unfold ds_bpp, data_width, bytes_per_row. intros ? [?|[?|[?|[?|[?|[?|?]]]]]]; subst bpp;
+  match goal with |- context [?a <? ?b] => destruct (a <? b) eqn:E end; zb; try lia;
+  match goal with |- context [(?n / 8) mod _] => assert (0 <= n / 8 <= 4096) by lia end;
+  rewrite Z.mod_small by lia;
+  try change (8 / 1) with 8; try change (8 / 2) with 4; try change (8 / 4) with 2; lia.
+Qed.
+Lemma data_width_total um w bpp : 4294967295 <= um -> ds_ext w -> ds_bpp bpp -> data_width_ok um w bpp = true.
+Proof.
+  intros Hu Hw Hb. pose proof (data_width_bound w bpp Hw Hb) as Hd. unfold data_width_ok. unfold data_width in Hd.
+  rewrite (bytes_per_row_total um w bpp Hu Hw Hb). revert Hw Hb Hd. unf_ds. unfold ds_bpp. intros.
+  destruct (bpp <? 8) eqn:E; zb; [ | reflexivity ]. cbn [andb]. sites; rng.
+Qed.
+Lemma image_draw_total um w bpp : 4294967295 <= um -> ds_ext w -> ds_bpp bpp -> image_draw_ok um w bpp = true.
+Proof.
+  intros Hu Hw Hb. unfold image_draw_ok. rewrite (data_width_total um w bpp Hu Hw Hb).
+  pose proof (data_width_bound w bpp Hw Hb). revert Hw. unf_ds. intros. cbn [andb]. rng.
+Qed.
+Lemma image_draw_sub_total um w h bpp x y aw ah : 4294967295 <= um -> ds_ext w -> ds_ext h -> ds_bpp bpp ->
+  ds_coord x -> ds_coord y -> ds_ext aw -> ds_ext ah -> image_draw_sub_ok um w h bpp x y aw ah = true.
+Proof.
+  intros Hu Hw Hh Hb Hx Hy Haw Hah. unfold image_draw_sub_ok. rewrite (data_width_total um w bpp Hu Hw Hb).
+  pose proof (data_width_bound w bpp Hw Hb). revert Hw Hh Hx Hy Haw Hah. unf_ds. intros.
+  pose proof (mul_bound y (data_width w bpp) 1024 1031).
+  sites; zb; try rng; nia.
+Qed.
+Lemma image_pixel_total um w h bpp x y : 4294967295 <= um -> ds_ext w -> ds_ext h -> ds_bpp bpp ->
+  image_pixel_ok um w h bpp x y = true.
+Proof.
+  intros Hu Hw Hh Hb. unfold image_pixel_ok, wrap_i32, i32_max. rewrite (data_width_total um w bpp Hu Hw Hb).
+  pose proof (data_width_bound w bpp Hw Hb). revert Hw Hh. unf_ds. intros.
+  destruct (w <=? 2147483647) eqn:E1; destruct (h <=? 2147483647) eqn:E2; zb; try lia.
+  sites; zb; try rng; nia.
+Qed.
+
+(* ContiguousPixels: every step is safe and the iterator stops after exactly w * h + 1 calls of next *)
+Definition cpix_inv (s : cpix) : Prop :=
+  0 <= cp_rx s <= 4294967295 /\ 0 <= cp_ry s <= 4294967295 /\ 0 <= cp_w s <= 4294967295 /\ (cp_w s = 0 -> cp_ry s = 0).
+Lemma cpix_new_inv w h : 0 <= w <= 4294967295 -> 0 <= h <= 4294967295 -> cpix_inv (cpix_new w h).
+Proof.
+  intros. unfold cpix_inv, cpix_new. unf_sat. cbn [cp_rx cp_w cp_ry].
+  destruct (0 <? h) eqn:E1; destruct (0 <? w) eqn:E2; zb; lia.
+Qed.
+Lemma cpix_next_total s : cpix_inv s ->
+  cpix_next_ok s = true /\ match cpix_next s with Some s' => cpix_inv s' | None => True end.
+Proof.
+  unfold cpix_inv, cpix_next_ok, cpix_next. intros [? [? [? ?]]].
+  destruct (0 <? cp_rx s) eqn:E1; [ | destruct (cp_ry s =? 0) eqn:E2 ]; zb; cbn [cp_rx cp_w cp_ry];
+  (split; [ sites; rng | try exact I; try lia ]).
+Qed.
+Lemma cpix_run_total fuel : forall s, cpix_inv s -> cpix_run_ok s fuel = true.
+Proof.
+  induction fuel as [|k IH]; intros s Hs; cbn [cpix_run_ok]; [reflexivity|].
+  destruct (cpix_next_total s Hs) as [-> Hn]. cbn [andb]. destruct (cpix_next s); [apply IH; assumption | reflexivity].
+Qed.
+Definition cpix_measure (s : cpix) : Z := cp_ry s * cp_w s + cp_rx s.
+Lemma cpix_steps_exact fuel : forall s, cpix_inv s -> cpix_measure s < Z.of_nat fuel ->
+  cpix_steps s fuel = Some (cpix_measure s + 1).
+Proof.
+  induction fuel as [|k IH]; intros s Hs Hm.
+  - unfold cpix_inv, cpix_measure in *. nia.
+  - cbn [cpix_steps]. pose proof (cpix_next_total s Hs) as [_ Hn]. revert Hn.
+    unfold cpix_next. unfold cpix_inv in Hs. destruct Hs as [? [? [? ?]]]. unfold cpix_measure in *.
+    destruct (0 <? cp_rx s) eqn:E1; [ | destruct (cp_ry s =? 0) eqn:E2 ]; zb; intros Hn.
+    + rewrite IH; [ | assumption | cbn [cp_rx cp_w cp_ry]; nia ]. cbn [option_map cp_rx cp_w cp_ry]. f_equal. lia.
+    + f_equal. nia.
+    + rewrite IH; [ | assumption | cbn [cp_rx cp_w cp_ry]; nia ]. cbn [option_map cp_rx cp_w cp_ry]. f_equal. nia.
+Qed.
+Lemma cpix_steps_total w h : 0 < w <= 1024 -> 0 < h <= 1024 ->
+  cpix_steps (cpix_new w h) (Z.to_nat (w * h + 2)) = Some (w * h + 1).
+Proof.
+  intros. rewrite cpix_steps_exact.
+  - f_equal. unfold cpix_measure, cpix_new. unf_sat. cbn [cp_rx cp_w cp_ry].
+    destruct (0 <? h) eqn:E1; destruct (0 <? w) eqn:E2; zb; try lia; nia.
+  - apply cpix_new_inv; lia.
+  - rewrite Z2Nat.id by nia. unfold cpix_measure, cpix_new. unf_sat. cbn [cp_rx cp_w cp_ry].
+    destruct (0 <? h) eqn:E1; destruct (0 <? w) eqn:E2; zb; try lia; nia.
+Qed.
+Lemma cpix_new_total um skip : 4294967295 <= um -> 0 <= skip <= 4294967295 -> cpix_new_ok um skip = true.
+Proof. intros. unfold cpix_new_ok. sites; zb; rng. Qed.
+
+Lemma contains_tl_le r p : contains r p = true -> px (tl r) <= px p /\ py (tl r) <= py p.
+Proof. unfold contains. destruct (_ && _) eqn:E; [ | discriminate ]. zb. intros _. lia. Qed.
+Lemma intersection_ds_tl a b : ds_rect a -> ds_rect b ->
+  ds_point (tl (intersection a b)) /\ (0 <= px (tl a) -> 0 <= py (tl a) -> 0 <= px (tl (intersection a b)) /\ 0 <= py (tl (intersection a b))).
+Proof.
+  intros Ha Hb. unfold intersection.
+  destruct (bottom_right b) as [obr|] eqn:Eb; destruct (bottom_right a) as [sbr|] eqn:Ea.
+  - destruct (_ && _) eqn:E.
+    + pose proof (bottom_right_ds _ _ Ha Ea). pose proof (bottom_right_ds _ _ Hb Eb).
+      revert Ha Hb. unf_ds. intros [[? ?] _] [[? ?] _]. unfold with_corners, component_max, component_min. cbn [tl px py].
+      unfold overlaps in E. zb; lia.
+    + unf_ds. cbn. lia.
+  - destruct (contains b (tl a)); [split; [apply Ha | tauto] | unf_ds; cbn; lia].
+  - destruct (contains a (tl b)) eqn:E; [ | unf_ds; cbn; lia].
+    apply contains_tl_le in E. split; [apply Hb | lia].
+  - unf_ds. cbn. lia.
+Qed.
+Lemma cropped_new_total um w h crop : 4294967295 <= um -> ds_ext w -> ds_ext h -> ds_rect crop ->
+  cropped_new_ok um w h crop = true.
+Proof.
+  intros Hu Hw Hh Hc. unfold cropped_new_ok. cbv zeta.
+  assert (Hr : ds_rect (R (P 0 0) (S w h))).
+  { revert Hw Hh. unf_ds. cbn [tl sz px py sw sh]. lia. }
+  rewrite (intersection_total _ _ Hr Hc).
+  destruct (intersection_ds_tl _ _ Hr Hc) as [[? ?] Hnn]. cbn [tl px py] in Hnn. destruct Hnn as [? ?]; try lia.
+  revert Hw H H0. unf_ds. intros.
+  pose proof (mul_bound_nn (py (tl (intersection (R (P 0 0) (S w h)) crop))) w 1024 1024).
+  cbn [andb]. sites; zb; rng.
+Qed.
+Lemma cropped_next_total s : 0 <= cs_x s <= 4294967294 -> 0 <= cs_y s -> cs_h s <= 4294967295 -> cropped_next_ok s = true.
+Proof. intros. unfold cropped_next_ok. sites; zb; rng. Qed.
